@@ -643,3 +643,136 @@ impl<'a> RequestExecutionParams<'a> {
         last_error.map(Result::Err)
     }
 }
+
+/// Verification harness: drives the real execution loop (`run_request_no_side_effects`, hence
+/// `run_request_speculative_fiber` and `speculative_execution::execute`) with synthetic attempts.
+#[cfg(scylla_verif)]
+#[allow(missing_docs, unreachable_pub, unnameable_types)]
+pub mod verif_hooks {
+    use super::*;
+    use crate::frame::response::NonErrorResponseWithDeserializedMetadataV2;
+    use crate::frame::response::result::ResultWithDeserializedMetadata;
+    use crate::policies::speculative_execution::SimpleSpeculativeExecutionPolicy;
+
+    pub struct VExec {
+        pub is_idempotent: bool,
+        pub consistency: Consistency,
+        pub retry_policy: Arc<dyn RetryPolicy>,
+        /// (max speculative executions, interval) of a `SimpleSpeculativeExecutionPolicy`
+        pub speculative: Option<(usize, Duration)>,
+        pub request_timeout: Option<Duration>,
+        /// one entry per plan target: `true` = choosing a connection fails (pool error)
+        pub targets_pool_error: Vec<bool>,
+    }
+
+    #[derive(Debug)]
+    pub enum VResult {
+        Completed { target: usize },
+        IgnoredWriteError { target: usize },
+    }
+
+    struct VTarget {
+        idx: usize,
+        conn: Arc<Connection>,
+        pool_error: bool,
+    }
+
+    impl AttemptTarget for VTarget {
+        type Coordinator = usize;
+
+        async fn get_connection(&self) -> Result<Arc<Connection>, ConnectionPoolError> {
+            if self.pool_error {
+                Err(ConnectionPoolError::Initializing)
+            } else {
+                Ok(Arc::clone(&self.conn))
+            }
+        }
+        fn coordinator(&self, _connection: &Arc<Connection>) -> usize {
+            self.idx
+        }
+        fn on_attempt_success(&self, _: &dyn LoadBalancingPolicy, _: &RoutingInfo<'_>, _: Duration) {}
+        fn on_attempt_failure(
+            &self,
+            _: &dyn LoadBalancingPolicy,
+            _: &RoutingInfo<'_>,
+            _: Duration,
+            _: &RequestAttemptError,
+        ) {
+        }
+    }
+
+    /// `attempt(target index, consistency)` is the synthetic `run_request_once`.
+    /// Must be called from within a tokio runtime.
+    pub async fn run_request<F, Fut>(spec: &VExec, attempt: F) -> Result<VResult, RequestError>
+    where
+        F: Fn(usize, Consistency) -> Fut,
+        Fut: Future<Output = Result<(), RequestAttemptError>>,
+    {
+        let conns: Vec<Arc<Connection>> = (0..spec.targets_pool_error.len())
+            .map(|i| crate::network::verif_connection_hooks::dummy_connection(10000 + i as u16))
+            .collect();
+        let targets: Vec<VTarget> = spec
+            .targets_pool_error
+            .iter()
+            .enumerate()
+            .map(|(idx, pe)| VTarget {
+                idx,
+                conn: Arc::clone(&conns[idx]),
+                pool_error: *pe,
+            })
+            .collect();
+        let lbp = crate::policies::load_balancing::DefaultPolicy::default();
+        let metrics = Arc::new(Metrics::new());
+        let spec_policy = spec
+            .speculative
+            .map(|(max_retry_count, retry_interval)| SimpleSpeculativeExecutionPolicy {
+                max_retry_count,
+                retry_interval,
+            });
+        let params = RequestExecutionParams {
+            is_idempotent: spec.is_idempotent,
+            consistency: spec.consistency,
+            serial_consistency: None,
+            retry_policy: spec.retry_policy.as_ref(),
+            load_balancing_policy: &lbp,
+            metrics_and_speculative_policy: Some((
+                &metrics,
+                spec_policy
+                    .as_ref()
+                    .map(|p| p as &dyn SpeculativeExecutionPolicy),
+            )),
+            request_timeout: spec.request_timeout,
+            history_listener: None,
+            request_kind: RequestPaging::Unpaged,
+        };
+        let routing_info = RoutingInfo::default();
+        let span = RequestSpan::new_query("verif");
+        let run_once = |conn: Arc<Connection>, cl: Consistency| {
+            let idx = conns
+                .iter()
+                .position(|c| Arc::ptr_eq(c, &conn))
+                .expect("connection of a plan target");
+            let fut = attempt(idx, cl);
+            async move {
+                fut.await.map(|()| NonErrorQueryResponse {
+                    response: NonErrorResponseWithDeserializedMetadataV2::Result(
+                        ResultWithDeserializedMetadata::Void,
+                    ),
+                    tracing_id: None,
+                    warnings: Vec::new(),
+                })
+            }
+        };
+        let out = params
+            .run_request_no_side_effects(&routing_info, targets.into_iter(), run_once, &span)
+            .await?;
+        Ok(match out.result {
+            RunRequestResult::Completed(_) => VResult::Completed {
+                target: out.coordinator,
+            },
+            RunRequestResult::IgnoredWriteError => VResult::IgnoredWriteError {
+                target: out.coordinator,
+            },
+        })
+    }
+}
